@@ -45,6 +45,7 @@ Definition ERR_IO : N := 1.              (* read_exact hit the end of the data *
 Definition ERR_MAGIC : N := 2.
 Definition ERR_ENTRY_SIZE : N := 3.
 Definition ERR_LENGTH : N := 4.
+Definition ERR_COUNT_OVERFLOW : N := 8.   (* InvalidSketchTrack "entry count overflows" *)
 
 (* ---------------------------------------------------------------- term filter *)
 (* l[i] := f l[i]  (unchanged when i is out of range; never the case below) *)
@@ -273,8 +274,9 @@ Definition read_sketch_track (file : bytes) (offset len : N) : outcome track :=
   | None => Err ERR_ENTRY_SIZE
   | Some v =>
       let prod := count * esz in
-      if 2 ^ 64 <=? prod then Panic PANIC_MUL_OVERFLOW else
-      if 2 ^ 64 <=? N.of_nat SKETCH_HEADER_SIZE + prod then Panic PANIC_MUL_OVERFLOW else
+      (* checked_mul / checked_add since bc37f0b: "entry count overflows" (was a debug-profile panic) *)
+      if 2 ^ 64 <=? prod then Err ERR_COUNT_OVERFLOW else
+      if 2 ^ 64 <=? N.of_nat SKETCH_HEADER_SIZE + prod then Err ERR_COUNT_OVERFLOW else
       if len <? N.of_nat SKETCH_HEADER_SIZE + prod then Err ERR_LENGTH else
       let rest := skipn SKETCH_HEADER_SIZE r in
       (* more entries announced than the data holds: the loop ends in read_exact's EOF *)
